@@ -94,15 +94,17 @@ static void run_flow(const vh::Json& segs, uint32_t isn, bool v6, vh::Out& out, 
     out.end();
 }
 
-struct LegacyRec { std::vector<uint8_t> got, other; bool server; int ended; };
+struct LegacyRec { std::vector<uint8_t> got, other; bool server; int ended; unsigned copies; };
 // --own 1 (C12, spec/pdu/Holders + HolderTrace): what the user's packet looks like before and after the follower saw it,
 // whether its parent links are sound, and whether anything is leaked once the follower is gone
 static void view(vh::W& w, const char* key, PDU* top) { w.key(key).A(); for (PDU* q = top; q; q = q->inner_pdu()) w.A().v((long)q->pdu_type()).v((long)q->header_size()).E(); w.E(); }
 static bool links_ok(PDU* top) { if (top->parent_pdu()) return false; for (PDU* q = top; q->inner_pdu(); q = q->inner_pdu()) if (q->inner_pdu()->parent_pdu() != q) return false; return true; }
 static void run_legacy(const vh::Json& segs, uint32_t isn, bool server_dir, vh::Out& out, const std::string& cfg, vh::Rng& rng, bool own) {
     out.begin(cfg + ",\"obj\":\"" + (server_dir ? "legacy_s" : "legacy_c") + "\"" + (own ? ",\"ip\":" + std::to_string((long)PDU::IP) + ",\"raw\":" + std::to_string((long)PDU::RAW) : std::string()));
-    std::unique_ptr<TCPStreamFollower> fol_p(new TCPStreamFollower()); TCPStreamFollower& fol = *fol_p; LegacyRec rec; rec.server = server_dir; rec.ended = 0;
-    auto data_fun = [&](TCPStream& s) { TCPStream::payload_type& p = rec.server ? s.server_payload() : s.client_payload(); rec.got.insert(rec.got.end(), p.begin(), p.end()); p.clear();
+    std::unique_ptr<TCPStreamFollower> fol_p(new TCPStreamFollower()); TCPStreamFollower& fol = *fol_p; LegacyRec rec; rec.server = server_dir; rec.ended = 0; rec.copies = 0;
+    auto data_fun = [&](TCPStream& s) { // the user may keep a copy of the stream (copy construction and copy assignment clone whatever is still buffered)
+                                         if (rec.copies++ % 3 == 0) { TCPStream cp(s); TCPStream cp2(cp); cp2 = s; }
+                                         TCPStream::payload_type& p = rec.server ? s.server_payload() : s.client_payload(); rec.got.insert(rec.got.end(), p.begin(), p.end()); p.clear();
                                          TCPStream::payload_type& q = rec.server ? s.client_payload() : s.server_payload(); rec.other.insert(rec.other.end(), q.begin(), q.end()); q.clear(); };
     auto end_fun = [&](TCPStream&) { rec.ended++; };
     const char* C = "192.168.0.1"; const char* S = "192.168.0.2";
